@@ -295,9 +295,9 @@ pub fn stub_from_utf8(v: &[u8]) -> Result<&str, core::str::Utf8Error> {
     if ascii {
         Ok(unsafe { core::str::from_utf8_unchecked(v) })
     } else {
-        // the std error type has no public constructor; obtain one from the real function on a
-        // two-byte constant
-        Err(core::str::from_utf8(&[0xC3u8, 0x28u8]).unwrap_err())
+        // the std error type has no public constructor (and calling the real function here would
+        // recurse into this stub): an all-zero value is `Utf8Error { valid_up_to: 0, error_len: None }`
+        Err(unsafe { core::mem::zeroed::<core::str::Utf8Error>() })
     }
 }
 
